@@ -199,3 +199,52 @@ func KeyPair(root string) *rapid.Generator[Key] {
 		return Key{D: d, Pub: p, Class: ClassOf(d, p)}
 	})
 }
+
+// UID draws a user id: absent (nil), explicit default, empty, short, long (<= 8191 bytes).
+func UID() *rapid.Generator[UIDCase] {
+	return rapid.Custom(func(t *rapid.T) UIDCase {
+		switch rapid.IntRange(0, 7).Draw(t, "uidkind") {
+		case 0, 1:
+			return UIDCase{nil, "uid_absent"}
+		case 2:
+			return UIDCase{[]byte("1234567812345678"), "uid_default"}
+		case 3:
+			n := rapid.SampledFrom([]int{8191, 8190, 4096, 1000}).Draw(t, "uidlong")
+			return UIDCase{BytesN(n).Draw(t, "uid"), "uid_long"}
+		default:
+			n := rapid.IntRange(1, 64).Draw(t, "uidlen")
+			return UIDCase{rapid.SliceOfN(rapid.Byte(), n, n).Draw(t, "uid"), "uid_short"}
+		}
+	})
+}
+
+type UIDCase struct {
+	UID   []byte
+	Class string
+}
+
+// NonceBlock draws the 40 random bytes the library turns into a nonce.
+func NonceBlock() *rapid.Generator[[]byte] {
+	return rapid.Custom(func(t *rapid.T) []byte {
+		b := make([]byte, 40)
+		nm1 := new(big.Int).Sub(N, big.NewInt(1))
+		switch rapid.IntRange(0, 9).Draw(t, "nkind") {
+		case 0:
+		case 1:
+			for i := range b {
+				b[i] = 0xff
+			}
+		case 2: // == 0 mod (n-1): k = 1
+			c := big.NewInt(int64(rapid.IntRange(0, 1<<20).Draw(t, "c")))
+			c.Mul(c, nm1).FillBytes(b)
+		case 3: // == n-2 mod (n-1): k = n-1
+			c := big.NewInt(int64(rapid.IntRange(1, 1<<20).Draw(t, "c")))
+			c.Mul(c, nm1).Sub(c, big.NewInt(1)).FillBytes(b)
+		case 4: // small k
+			big.NewInt(int64(rapid.IntRange(0, 300).Draw(t, "smallk"))).FillBytes(b)
+		default:
+			return rapid.SliceOfN(rapid.Byte(), 40, 40).Draw(t, "nonce")
+		}
+		return b
+	})
+}
